@@ -130,6 +130,9 @@ static void c11_dispatch(vbi_event_handler fp, vbi_event *ev, void *ud)
 static void read_op(struct op *o, unsigned kinds)
 {
   o->kind = in_u8(); o->f = in_u8(); o->u = in_u8(); o->mask = in_int();
+#ifdef MASK_AND
+  o->mask &= MASK_AND;
+#endif
   V_ASSUME(o->kind < kinds && o->f < NF && o->u < NU);
 }
 
@@ -159,34 +162,44 @@ static void sh_set(unsigned f, unsigned u, int mask, int by_fn_only)
   if (!found && mask) sh_new(f, u, mask);
 }
 
-/* the real list is exactly the live shadow instances, in registration order (=> invariant I again) */
-static void list_matches_shadow(void)
+/* the real list is exactly the live shadow instances, in registration order (=> invariant I again);
+ * idle: not inside vbi_send_event (cursor cleared, mutex free).  Remembers the record of instance `watch`. */
+static struct event_handler *watched;
+static void list_matches_shadow(int idle, unsigned watch)
 {
   unsigned i; struct event_handler *p = V.handlers;
+  watched = NULL;
   for (i = 0; i < MAXI; i++)
     if (i < sh_n && sh[i].live) {
       V_ASSERT(p != NULL, "list_has_every_live_registration");
       if (!p) return;
       V_ASSERT(p->handler == H[sh[i].f] && p->user_data == U(sh[i].u), "list_order_and_identity");
       V_ASSERT(p->event_mask == sh[i].mask && p->event_mask != 0, "list_masks");
+      if (i == watch) watched = p;
       p = p->next;
     }
   V_ASSERT(p == NULL, "list_has_nothing_else");
-  V_ASSERT(V.next_handler == NULL, "traversal_cursor_cleared");
   V_ASSERT(V.event_mask == sh_or(), "event_mask_is_or_of_live_masks");
-  V_ASSERT(!c11_mutex_held(&V.event_mutex), "event_mutex_released");
+  if (idle) {
+    V_ASSERT(V.next_handler == NULL, "traversal_cursor_cleared");
+    V_ASSERT(!c11_mutex_held(&V.event_mutex), "event_mutex_released");
+  }
 }
 
 /* an arbitrary list satisfying I, built directly (N0 malloc'ed records, the first n linked) + its shadow */
+static struct event_handler *nd[N0];
 static void build_list(void)
 {
-  unsigned i, j, n; struct event_handler *nd[N0]; uint8_t f[N0], u[N0]; int mask[N0], m = 0;
+  unsigned i, j, n; uint8_t f[N0], u[N0]; int mask[N0], m = 0;
   n = in_u8(); V_ASSUME(n <= N0);
 #ifdef N_FIX
   n = N_FIX;          /* grid: list length concrete */
 #endif
   for (i = 0; i < N0; i++) {
     f[i] = in_u8(); u[i] = in_u8(); mask[i] = in_int();
+#ifdef MASK_AND
+    mask[i] &= MASK_AND;
+#endif
     V_ASSUME(f[i] < NF && u[i] < NU && mask[i] != 0);
     for (j = 0; j < i; j++) V_ASSUME(f[i] != f[j] || u[i] != u[j]);
   }
@@ -295,8 +308,20 @@ static void read_events(int *type)
   for (e = 0; e < NEV; e++) {
     uint32_t t = in_u32();
     V_ASSUME(t != 0 && (t & (t - 1)) == 0);      /* event types are single bits */
+#ifdef TYPE_N                                     /* grid: the bit is one of TYPE_LO .. TYPE_LO+TYPE_N-1 */
+    V_ASSUME((t >> TYPE_LO) != 0 && (t >> TYPE_LO) < (1u << TYPE_N));
+#endif
     type[e] = (int) t;
     for (i = 0; i < CBK; i++) read_op(&act[e][i], CB_KINDS);
+#ifdef K0       /* grid: API function used by the 1st / 2nd / 3rd call made from callbacks (or none) */
+    V_ASSUME(act[e][0].kind == OP_NONE || act[e][0].kind == K0);
+#endif
+#if defined(K1) && CBK > 1
+    V_ASSUME(act[e][1].kind == OP_NONE || act[e][1].kind == K1);
+#endif
+#if defined(K2) && CBK > 2
+    V_ASSUME(act[e][2].kind == OP_NONE || act[e][2].kind == K2);
+#endif
   }
 }
 
@@ -309,9 +334,43 @@ V_HARNESS(h_api_step)
   read_op(&o, OP_KINDS);
   n0 = sh_n;
   do_op(&o, 1, 0);
-  list_matches_shadow();
+  list_matches_shadow(1, MAXI);
   if (sh_n > n0) V_REACH("appended");
   if (sh_n == n0 && n0 >= 2 && !sh[0].live && !sh[1].live) V_REACH("removed_two");
+  V_END();
+}
+
+/* ---- 1b. INV-STEP for an API call made from inside a handler: the cursor lemma ----------
+ * Mid-delivery state: list satisfying I except that the event mutex is held (by vbi_send_event) and the
+ * traversal cursor vbi->next_handler points to an arbitrary record nd[c] of the list or is NULL (c == n: the
+ * running handler is the last one).  One API call of any kind.  Afterwards: list as documented; the cursor is
+ * the first record at or after the old cursor position that was not removed - so every instance that is still
+ * due will be visited, removed ones never, in order; if no such record exists the cursor is NULL or the record
+ * appended by this very call (either is allowed: "added during delivery => at most once"); mutex still held.
+ * Together with h_deliver (traversal step + bounded nesting) this gives nesting of any depth by induction. */
+V_HARNESS(h_api_step_cb)
+{
+  struct op o; unsigned i, c, n0; int exp = -1;
+  V_INIT();
+  build_list();
+  read_op(&o, OP_KINDS);
+  c = in_u8();
+  n0 = sh_n;
+  V_ASSUME(c <= n0);
+  for (i = 0; i < N0; i++) if (i == c && i < n0) V.next_handler = nd[i];
+  pthread_mutex_lock(&V.event_mutex); in_delivery = 1;
+  do_op(&o, 1, 0);
+  list_matches_shadow(0, n0);
+  V_ASSERT(c11_mutex_held(&V.event_mutex), "event_mutex_still_held_by_send_event");
+  for (i = 0; i < N0; i++) if (exp < 0 && i >= c && i < n0 && sh[i].live) exp = (int) i;
+  if (exp >= 0) {
+    V_ASSERT(V.next_handler == nd[exp], "cursor_is_next_surviving_record");
+    if (exp != (int) c) V_REACH("cursor_patched");
+  } else {
+    V_ASSERT(V.next_handler == NULL || (sh_n > n0 && V.next_handler == watched), "cursor_null_or_new_record_when_tail_removed");
+    if (c < n0) V_REACH("cursor_tail_removed");
+  }
+  in_delivery = 0;
   V_END();
 }
 
@@ -324,7 +383,7 @@ V_HARNESS(h_deliver)
   read_events(type);
   for (e = 0; e < NEV; e++) {
     raise_event(e, type[e]);
-    list_matches_shadow();
+    list_matches_shadow(1, MAXI);
   }
   V_END();
 }
@@ -336,12 +395,12 @@ V_HARNESS(h_events)
   V_INIT();
   for (i = 0; i < R_OPS; i++) read_op(&pro[i], OP_KINDS);
   read_events(type);
-  list_matches_shadow();                          /* INIT |= I */
+  list_matches_shadow(1, MAXI);                          /* INIT |= I */
   for (i = 0; i < R_OPS; i++) do_op(&pro[i], 1, 0);
-  list_matches_shadow();
+  list_matches_shadow(1, MAXI);
   for (e = 0; e < NEV; e++) {
     raise_event(e, type[e]);
-    list_matches_shadow();
+    list_matches_shadow(1, MAXI);
   }
   V_END();
 }
